@@ -288,7 +288,7 @@ class FnTranslator:
             return "(ECall %s %s)" % (cs(name), args)
         if h == "mcall":
             name = S(e[2])
-            if name == "unwrap_or_default":
+            if name == "unwrap_or_default" and not getattr(self, "unwrap_default_vec", False):
                 name = self.unwrap_default_name(e[1])
             if name == "into" and self.interior and e[1][0] == "path" and len(e[1]) == 2 and \
                     "".join(self.param_types.get(S(e[1][1]), "").split()).startswith("implInto<Option<"):
@@ -337,6 +337,16 @@ class FnTranslator:
             if self.interior and name == "find" and len(e) == 4 and e[3][0] == "closure" and e[1][0] == "mcall" and \
                     S(e[1][2]) in ("into_iter", "iter") and len(e[1]) == 3:
                 return self.array_find(e[1][1], e[3])
+            if self.interior and name == "collect" and len(e) == 3 and e[1][0] == "mcall" and S(e[1][2]) in ("copied", "cloned") and len(e[1]) == 3:
+                return self.expr(["mcall", e[1][1], e[2]])      # `.copied()` / `.cloned()` of an iterator: the same elements
+            if self.interior and name == "contains" and len(e) == 4:
+                return "(ECall \"contains\" [%s; %s])" % (self.expr(e[1]), self.expr(e[3]))
+            if self.interior and name == "all" and len(e) == 4 and e[3][0] == "closure" and e[1][0] == "mcall" and \
+                    S(e[1][2]) in ("into_iter", "iter") and len(e[1]) == 3:
+                return self.array_all(e[1][1], e[3])
+            if self.interior and name == "unwrap_or_default" and getattr(self, "unwrap_default_vec", False) and len(e) == 3:
+                # of an Option<Vec<_>>: the vector, or the empty one
+                return "(EMatch %s [(PCon \"Some\" [PVar \"unwrap_v\"], EVar \"unwrap_v\"); (PCon \"None\" [], EArr [])])" % self.expr(e[1])
             if self.interior and name == "find_map" and len(e) == 4 and e[3][0] == "closure" and e[1][0] == "mcall" and \
                     S(e[1][2]) in ("into_iter", "iter") and len(e[1]) == 3:
                 return self.array_find_map(e[1][1], e[3])
@@ -645,6 +655,17 @@ class FnTranslator:
                 "STail (EAssign \"fm_res%d\" [] %s)]) (EConst VUnit))])); "
                 "STail (EVar \"fm_res%d\")])" % (n, self.expr(src), n, n, n, n, cs(v), n, n, n, body, n))
 
+    def array_all(self, src, clo):
+        """`xs.into_iter().all(|v| COND)`: whether every element satisfies COND (COND has no effects)"""
+        v, cond = self.closure1(clo)
+        self.hof_no = getattr(self, "hof_no", 0) + 1
+        n = self.hof_no
+        return ("(EBlock [SLet (PVar \"all_src%d\") %s; SLet (PVar \"all_res%d\") (EConst (VBool true)); "
+                "SExpr (EFor \"all_i%d\" (EConst (VNat 0)) (ECall \"len\" [EVar \"all_src%d\"]) "
+                "(EBlock [SLet (PVar %s) (EIndex (EVar \"all_src%d\") (EVar \"all_i%d\")); "
+                "STail (EIf %s (EConst VUnit) (EAssign \"all_res%d\" [] (EConst (VBool false))))])); "
+                "STail (EVar \"all_res%d\")])" % (n, self.expr(src), n, n, n, cs(v), n, n, cond, n, n))
+
     def array_any(self, src, clo):
         """`xs.iter().any(|v| COND)`: whether some element satisfies COND (COND has no effects: evaluating it on the elements
         after the first hit, which `any` skips, changes nothing)"""
@@ -787,7 +808,7 @@ def fetch_ast(path):
 
 
 BUILTINS = {"len", "is_empty", "konst::cmp_str", "konst::eq_str", "into", "to_string", "unwrap_or_default_string", "Binary::default",
-            "anyhow::is", "anyhow::downcast", "unwrap", "push", "Response::new", "add_submessages", "add_events", "add_attributes", "into_option", "is_some", "is_none", "min", "set_data"}
+            "anyhow::is", "anyhow::downcast", "unwrap", "push", "Response::new", "add_submessages", "add_events", "add_attributes", "into_option", "is_some", "is_none", "min", "set_data", "contains"}
 
 
 def translate_utils():
@@ -1133,6 +1154,40 @@ def translate_attr_parser():
     return out
 
 
+def translate_generics():
+    """Which type parameters a message type carries and which bounds it keeps: `CheckGenerics` (parser/check_generics.rs) and
+    `filter_wheres`, `as_where_clause`, `emit_bracketed_generics` (utils.rs). syn's own traversal (`visit_where_predicate`,
+    `visit_path_segment`) and `GetPath::get_path` are operations the theorems quantify over."""
+    def setup(t):
+        t.interior = True
+        t.mut_self_state = True
+        t.unwrap_default_vec = True
+        t.externals = {"get_path"}
+        t.own_methods = {"used": "CheckGenerics::used"}
+        t.state_methods = {"visit_where_predicate": "extern::visit_where_predicate", "visit_path_segment": "extern::visit_path_segment"}
+    kv = fetch_ast(os.path.join(common.REPO, "sylvia-derive", "src", "parser", "check_generics.rs"))
+    known = {"CheckGenerics::new", "CheckGenerics::used", "extern::visit_where_predicate", "extern::visit_path_segment", "extern::get_path",
+             "contains", "push", "len", "is_empty"}
+    out = translate_methods("parser/check_generics.rs", {"CheckGenerics": ["new", "used", "used_unused", "visit_path"]},
+                            setup=setup, kv=kv, extra_known=known)
+    kv = fetch_ast(os.path.join(common.REPO, "sylvia-derive", "src", "utils.rs"))
+    wanted = ["filter_wheres", "as_where_clause", "emit_bracketed_generics"]
+    got = {}
+    for k, v in kv:
+        if k == "fn":
+            sx = parse_sx(v)
+            if S(sx[1]) in wanted:
+                text, cl = translate_fn(sx, setup=setup)
+                bad = cl - BUILTINS - known
+                if bad:
+                    raise TranslateError("utils.rs: %s calls %s" % (S(sx[1]), sorted(bad)))
+                got[S(sx[1])] = text
+    missing = [w for w in wanted if w not in got]
+    if missing:
+        raise TranslateError("utils.rs: functions not found: %s" % missing)
+    return out + [got[w] for w in wanted]
+
+
 def translate_checks():
     """sylvia-derive/src/parser/mod.rs: `assert_new_method_defined` - the constructor `new` a contract needs. The function
     returns nothing; its diagnostics, in order, are the result of the translation."""
@@ -1375,6 +1430,10 @@ def generate():
     except (TranslateError, KeyError, IndexError, ValueError, TypeError, AttributeError) as e:
         checkfns, _ = [], errors.append("macro logic (checks: parser/mod.rs): %s" % e)
     try:
+        genericsfns = translate_generics()
+    except (TranslateError, KeyError, IndexError, ValueError, TypeError, AttributeError) as e:
+        genericsfns, _ = [], errors.append("macro logic (generics: parser/check_generics.rs, utils.rs): %s" % e)
+    try:
         foldfns = translate_fold()
     except (TranslateError, KeyError, IndexError, ValueError, TypeError, AttributeError) as e:
         foldfns, _ = [], errors.append("macro logic (fold.rs StripInput): %s" % e)
@@ -1448,6 +1507,9 @@ def generate():
         "GenImpCheck.v": gen_file("checks of the contract macro (parser/mod.rs)", [
             "(* assert_new_method_defined: its diagnostics, in order, are the result *)",
             "Definition check_fns : program :=", prog(checkfns)]),
+        "GenImpGenerics.v": gen_file("which type parameters and bounds a message type carries (parser/check_generics.rs, utils.rs)", [
+            "(* CheckGenerics::{new, used, used_unused, visit_path}, filter_wheres, as_where_clause, emit_bracketed_generics *)",
+            "Definition generics_fns : program :=", prog(genericsfns)]),
         "GenImpBridge.v": gen_file("the contract-level message (types/interfaces.rs, types/msg_type.rs, contract/communication/wrapper_msg.rs)", [
             "(* Interfaces::emit_*, MsgType::emit_ctx_dispatch_values, GlueMessage::emit *)",
             "Definition bridge_fns : program :=", prog(bridge)])}
